@@ -46,6 +46,10 @@ const reflectDictXML = `<?xml version="1.0" encoding="UTF-8"?>
   <avp name="V-GRP2" code="9019" vendor-id="10415" must="M,V" may="P" must-not="-" may-encrypt="-"><data type="Grouped"/></avp>
   <avp name="V-VU32" code="9020" vendor-id="10415" must="V" may="P" must-not="-" may-encrypt="-"><data type="Unsigned32"/></avp>
   <avp name="V-VOS" code="9021" vendor-id="10415" must="V,M" may="P" must-not="-" may-encrypt="-"><data type="OctetString"/></avp>
+  <avp name="V-NOV" code="9022" vendor-id="10415" must="M" may="P" must-not="-" may-encrypt="-"><data type="UTF8String"/></avp>
+  <avp name="V-NOV2" code="9023" vendor-id="5535" must="-" may="P,M" must-not="-" may-encrypt="-"><data type="Unsigned32"/></avp>
+  <avp name="V-VNOVENDOR" code="9024" must="V" may="P" must-not="-" may-encrypt="-"><data type="OctetString"/></avp>
+  <avp name="V-GNOV" code="9025" vendor-id="10415" must="M" may="P" must-not="-" may-encrypt="-"><data type="Grouped"/></avp>
  </application>
 </diameter>`
 
@@ -225,7 +229,30 @@ type rf20 struct { // deep nesting
 	} `avp:"V-GRP"`
 }
 
+type rfEmb2 struct {
+	F32 float32 `avp:"V-F32"`
+	URI string  `avp:"V-URI"`
+}
+type rf21 struct { // embedded structs after tagged fields, and between them
+	OS string `avp:"V-OS"`
+	rfEmbedded
+	U32 uint32 `avp:"V-U32"`
+	RfPubEmb
+	Enum int32 `avp:"V-ENUM,omitempty"`
+	rfEmb2
+}
+type rf22 struct { // dictionary entries whose Must and vendor id do not line up
+	NoV   string   `avp:"V-NOV"`
+	NoV2  []uint32 `avp:"V-NOV2"`
+	VOnly string   `avp:"V-VNOVENDOR"`
+	G     *struct {
+		NoV string `avp:"V-NOV"`
+		U32 uint32 `avp:"V-U32"`
+	} `avp:"V-GNOV"`
+}
+
 var rfFamily = []func() interface{}{
+	func() interface{} { return new(rf21) }, func() interface{} { return new(rf22) },
 	func() interface{} { return new(rf0) }, func() interface{} { return new(rf1) }, func() interface{} { return new(rf2) },
 	func() interface{} { return new(rf3) }, func() interface{} { return new(rf4) }, func() interface{} { return new(rf5) },
 	func() interface{} { return new(rf6) }, func() interface{} { return new(rf7) }, func() interface{} { return new(rf8) },
